@@ -19,7 +19,7 @@ RULE = ("case = (seed): a random spot path (3..40 dates, d = 1..3), strikes / ba
         "distinct seed")
 ASSUMPTIONS = ["LookBack is excluded (its process() raises by design)",
                "purity and identities are exact or 1e-12 relative (pure floating-point formulas)"]
-REQUIRED_COUNTERS = ["purity_checks", "representation_equivalence", "parity_identities", "barrier_identities", "average_bounds",
+REQUIRED_COUNTERS = ["purity_checks", "representation_equivalence", "parity_identities", "barrier_identities", "average_bounds", "path_manager_pairs",
                      "default_time_checks", "nth_default_monotone", "notional_linearity"]
 MIN_NONTRIVIAL = {"quick": 100, "thorough": 2000}
 THOROUGH_ROUNDS = 15      # the thorough tier runs the generators this many times (different seeds)
@@ -241,6 +241,34 @@ def run_case(case, R):
                 R.violation("barrier-event-depends-on-earlier-paths", f"{'down' if down else 'up'}-and-in on a path that "
                             f"{'crosses' if crossed else 'never crosses'} the barrier {lvl!r} pays {vals[0]!r} (vanilla {van!r}) after an earlier "
                             "path of the same product had knocked", wit)
+    # ---- the multilevel path manager evaluates the product on the fine and on the coarse path of a coupled pair: each value is the value
+    #      of the product on that path alone (a knock event of one path must not leak into the other)
+    from rpylib.montecarlo.path import MLMCPath, StochasticJumpPath
+    from rpylib.product.product import NoControlVariates
+
+    coarse_path = path1 * float(rng.choice([0.6, 0.85, 1.2, 1.6]))
+    for bt in (P.BarrierType.DOWN_AND_IN, P.BarrierType.DOWN_AND_OUT, P.BarrierType.UP_AND_IN, P.BarrierType.UP_AND_OUT):
+        def mk(bt=bt):
+            return Product(payoff_underlying=U.Spot(), payoff=P.Barrier(strike=k, payoff_type=P.PayoffType.CALL, barrier_type=bt, barrier=lvl), maturity=1.0)
+
+        pm = MLMCPath(deterministic_path=lambda t: np.zeros((2, np.size(t))), activate_spot_underlying=False)
+        pm.set_to_path(StochasticJumpPath(times, np.stack([path1, coarse_path]), np.zeros((2, times.size))))
+        prod_pm = mk()
+        R.hit("path_manager_pairs")
+        try:
+            pm.process(prod_pm, NoControlVariates())
+            got_pair = np.asarray(pm.payoff, dtype=float).reshape(-1)
+        except Exception as exc:  # noqa: BLE001
+            R.violation("path-manager-raises", f"MLMCPath.process raises {type(exc).__name__}: {exc}", wit)
+            break
+        alone = []
+        for pth in (path1, coarse_path):
+            fresh = mk()
+            alone.append(float(fresh(fresh.underlying_value(times, pth, J[0]))))
+        if not np.allclose(got_pair, alone, rtol=1e-12, atol=0):
+            R.violation("path-manager-fine-payoff-depends-on-the-coarse-path", f"{bt.name} barrier {lvl!r}: the multilevel path manager gives (fine, coarse) = "
+                        f"{got_pair.tolist()}, the product evaluated on each path alone gives {alone}", wit)
+            break
     # ---- averages -----------------------------------------------------------------------------------------------------------------
     if d == 1:
         for rep in (PR.IDENDITY, PR.LOG):
